@@ -16,6 +16,8 @@ tier = "quick"
 if "--tier" in sys.argv:
     tier = sys.argv[sys.argv.index("--tier") + 1]
 src = "/tmp/seed_%s_out/%s" % (pid, letter)
+if not os.path.exists(os.path.join(src, "patch.diff")):
+    src = os.path.join(ROOT, "seeded", "%s_%s" % (pid, letter))   # already kept: re-validate from the kept copy
 wt = "/tmp/val_%s_%s" % (pid, letter)
 env = dict(os.environ, CARGO_TARGET_DIR="/tmp/val_target", CARGO_NET_OFFLINE="true")
 
@@ -121,8 +123,9 @@ meta["check"] = None if NO_CHECK else {"concrete_failing_input": detected and "n
 meta["confirmed"] = bool(meta["demo_without_patch"]["passed"] and not meta["demo_with_patch"]["passed"] and tests_ok)
 dst = os.path.join(ROOT, "seeded", "%s_%s" % (pid, letter))
 os.makedirs(dst, exist_ok=True)
-shutil.copy(patch, os.path.join(dst, "patch.diff"))
-shutil.copy(os.path.join(src, "demo.rs"), os.path.join(dst, "demo.rs"))
+if os.path.abspath(src) != os.path.abspath(dst):
+    shutil.copy(patch, os.path.join(dst, "patch.diff"))
+    shutil.copy(os.path.join(src, "demo.rs"), os.path.join(dst, "demo.rs"))
 if readme:
     open(os.path.join(dst, "README.md"), "w").write(readme)
 json.dump(meta, open(os.path.join(dst, "meta.json"), "w"), indent=1)
